@@ -90,29 +90,31 @@ func runMuxTab(c *core.Ctx) {
 	c.CountFuncs(1)
 	var relayG, nipG, defG, greetG [][]string
 	var relayPos, nipPos, defPos token.Pos
-	for _, ci := range calls(mux) {
-		call, ok := ci.(*ssa.Call)
+	// the dispatch may hand a branch to a private method: the header tests that count
+	// are those in front of the call site in ServeHTTP
+	an.Region(mux, nil, func(o an.Occ) {
+		call, ok := o.In.(*ssa.Call)
 		if !ok {
-			continue
+			return
 		}
 		name := an.CalleeName(&call.Call)
-		gs := guardSummary(mux, call.Block())
+		gs := guardSummary(mux, o.Block())
 		switch {
-		case strings.HasSuffix(name, "mocrelay.Relay).ServeHTTP") && an.PathOf(call.Call.Args[0]) == "recv.Relay":
-			relayG, relayPos = append(relayG, gs), call.Pos()
-		case strings.HasSuffix(name, "mocrelay.NIP11).ServeHTTP") && an.PathOf(call.Call.Args[0]) == "recv.NIP11":
-			nipG, nipPos = append(nipG, gs), call.Pos()
-		case name == "invoke:net/http.Handler.ServeHTTP" && an.PathOf(call.Call.Value) == "recv.Default":
-			defG, defPos = append(defG, gs), call.Pos()
+		case strings.HasSuffix(name, "mocrelay.Relay).ServeHTTP") && o.Path(call.Call.Args[0]) == "recv.Relay":
+			relayG, relayPos = append(relayG, gs), o.Site().Pos()
+		case strings.HasSuffix(name, "mocrelay.NIP11).ServeHTTP") && o.Path(call.Call.Args[0]) == "recv.NIP11":
+			nipG, nipPos = append(nipG, gs), o.Site().Pos()
+		case name == "invoke:net/http.Handler.ServeHTTP" && o.Path(call.Call.Value) == "recv.Default":
+			defG, defPos = append(defG, gs), o.Site().Pos()
 		case name == "io.WriteString":
 			if s, ok := an.ConstStr(call.Call.Args[1]); ok && s != "{}" {
 				greetG = append(greetG, gs)
 				if defPos == token.NoPos {
-					defPos = call.Pos()
+					defPos = o.Site().Pos()
 				}
 			}
 		}
-	}
+	})
 	c.CountSites(len(relayG) + len(nipG) + len(defG) + len(greetG))
 	one := func(gs [][]string, want ...string) bool {
 		if len(gs) != 1 {
@@ -251,13 +253,26 @@ func runHdrBeforeWrite(c *core.Ctx) {
 		check(nip, w, "document/write")
 	}
 	// body writes of the mux itself inside the NIP-11 branch
-	for _, w := range bodyWrites(mux) {
-		gs := guardSummary(mux, w.Block())
+	an.Region(mux, nil, func(o an.Occ) {
+		w, isCall := o.In.(*ssa.Call)
+		if !isCall {
+			return
+		}
+		isBody := false
+		for _, bw := range bodyWrites(w.Parent()) {
+			if bw == w {
+				isBody = true
+			}
+		}
+		if !isBody {
+			return
+		}
+		gs := guardSummary(mux, o.Block())
 		if hasAll(gs, `Accept=="`+nostrJSON+`"`) {
 			n++
-			check(mux, w, "branch:nostr+json/write")
+			check(w.Parent(), w, "branch:nostr+json/write")
 		}
-	}
+	})
 	if n == 0 {
 		c.Unknown(nil, fname(c, nip), "document/write", P.Pos(nip.Pos()), "no status-200 body write found on the NIP-11 path")
 	}
